@@ -137,6 +137,19 @@ fn c05_harness(spec: &RunSpec) -> RunOutput {
     }
 }
 
+/// C12: every fifth run is an API-level run (real clients of mixed versions).
+fn c12_harness(spec: &RunSpec) -> RunOutput {
+    let api = match &spec.plan {
+        Some(p) => p["harness"].as_str() == Some("api"),
+        None => spec.index % 5 == 4,
+    };
+    if api {
+        api::api_harness(spec)
+    } else {
+        wire_harness(spec)
+    }
+}
+
 fn prop_cfg(prop: Prop) -> Option<PropCfg> {
     let wire = |nontrivial: fn(&RunStats) -> bool, rule: &'static str, level: &'static str| PropCfg {
         harness: wire_harness,
@@ -200,7 +213,7 @@ fn prop_cfg(prop: Prop) -> Option<PropCfg> {
             "runs generated per seed by the C04 profile (subscribe/unsubscribe/subscribe-all/emit/destroy/disconnect); non-trivial when an event fanned out to 2+ connections, a 1->0 transition was forwarded, a service with subscribers was destroyed, or a non-owner emitted; distinct = distinct broker linearisation signatures",
             "exploration",
         ),
-        Prop::C05 => wire(
+        Prop::C05 => PropCfg { harness: c05_harness, ..wire(
             |st| {
                 any(
                     st,
@@ -216,7 +229,7 @@ fn prop_cfg(prop: Prop) -> Option<PropCfg> {
             },
             "runs generated per seed by the C05 profile (create/claim/close/send-item/add-capacity/disconnect, capacities 0,1,3..6,16,u32::MAX-1,u32::MAX); non-trivial when credit reached zero, was replenished, a sender overran, a grant overflowed or a claim was refused; distinct = distinct broker linearisation signatures",
             "exploration",
-        ),
+        ) },
         Prop::C09 => wire(
             |st| has(st, "conn-removed-with-state"),
             "runs generated per seed by the mixed profile with an ending (clean shutdown, transport error, EOF, shutdown_connection, dropped task) at a random script position of each connection with probability 0.4; non-trivial when a connection that owned or subscribed to something was removed; distinct = distinct broker linearisation signatures",
@@ -232,11 +245,11 @@ fn prop_cfg(prop: Prop) -> Option<PropCfg> {
             "1-2 abusing connections sending arbitrary well-formed messages (all kinds incl. wrong-direction ones, stale/foreign/never-issued cookies and serials, garbage payloads) next to conformant connections and a late-joining probe; non-trivial when the broker had to refuse or close an abuser; distinct = distinct broker linearisation signatures",
             "exploration",
         ),
-        Prop::C12 => wire(
+        Prop::C12 => PropCfg { harness: c12_harness, ..wire(
             |st| any(st, &["cross-epoch-payload", "gate-closed", "handshake-incompatible", "call2-downgraded-for-old-callee", "old-callee-abort-suppressed"]),
             "connections of every version 1.14-1.20 (and requests outside the range) running the mixed profile; non-trivial when a payload crossed epochs, a version gate closed a connection, a handshake was refused or a call/abort was down-translated; distinct = distinct broker linearisation signatures",
             "exploration",
-        ),
+        ) },
         Prop::C06 | Prop::C15 | Prop::C19 => {
             let (rule, level): (&'static str, &'static str) = match prop {
                 Prop::C06 => ("non-trivial = more than 20 broker steps and at least one call value, event or channel item was checked end to end. 2-4 real clients (versions 1.14-1.20, unbounded / bounded(1,2,4,16) core::channel transports or the simulated pipe) each running 1-3 application tasks that interpret random closed programs over the public API (objects, services with server tasks, proxies, calls awaited/dropped/cancelled, events, channels in every state incl. unbind/bind/claim, sessions with producer and consumer, bus listeners, discoverers, lifetimes, sync); distinct = distinct broker linearisation signatures", "exploration"),
